@@ -107,6 +107,8 @@ def all_strings(doc, key: str) -> list[str]:
 
 def run_case(ck: Check, camp, case: dict) -> None:
     doc, model, opts = case["doc"], case["model"], case["opts"]
+    if case.get("set_opts"):  # options whose value is a set travel as sorted lists (JSON); generate() wants the set
+        opts = {k: (set(v) if k in case["set_opts"] else v) for k, v in opts.items()}
     fm, target, ift, clean = case.get("formatters"), case.get("target"), case.get("input_file_type", "jsonschema"), case.get("clean", False)
     camp.evaluations += 1
     camp.hit(f"kind:{model}")
@@ -285,6 +287,9 @@ def run(ck: Check) -> None:
     # the templates themselves, as a deep-embedded AST from jinja2's own parser: the template theorems
     # (class_body_nonempty, class_body_lines_indented, …) are re-checked by the kernel against what the sources say now
     ck.translate("TemplateAst", template_ast.generate())
+    from ..translate import code_sites
+
+    ck.translate("CodeSites", code_sites.generate())
     ck.search_hooks.append(tpl_search.search)
     ck.prove()
     ck.assumptions += [
@@ -304,6 +309,10 @@ def run(ck: Check) -> None:
     campaign_text_slots(ck)
     campaign_e2e(ck, 150 if quick else 2500, 200 if quick else 3500)
     # after the older campaigns, so that their random streams are what they were before these were added
+    from . import c01_extra
+
+    c01_extra.campaign_yaml_text(ck, run_case, 120 if quick else 2500)
+    c01_extra.campaign_field_extras(ck, run_case)
     _campaign_templates(ck, quick)
     tpl_search.self_test(ck)
     known_findings(ck)
